@@ -4,7 +4,7 @@ From SV Require Import Lib.Base Gen.Consts.
 From SV Require Import Model.Seq32 Model.Assembler Model.TcpBuf Model.TcpTypes Model.Tcp Model.TcpNet.
 From SV Require Import Proofs.TcpSendBase Proofs.TcpLiveBase Proofs.TcpLiveProofs Proofs.TcpLiveMore Proofs.TcpLiveProgress.
 From SV Require Import Proofs.TcpNetBase.
-From SV Require Import Proofs.TcpProgressBase Proofs.TcpProgressFrame Proofs.TcpProgressRecv Proofs.TcpProgressSend Proofs.TcpProgressNet Proofs.TcpProgressData Proofs.TcpProgressExample.
+From SV Require Import Proofs.TcpProgressBase Proofs.TcpProgressFrame Proofs.TcpProgressRecv Proofs.TcpProgressSend Proofs.TcpProgressNet Proofs.TcpProgressData Proofs.TcpProgressAck Proofs.TcpProgressAll Proofs.TcpProgressExample.
 From SV Require Import Props.C02live.
 
 Check (C02live_fair_runb_sound : forall Dt Da evs fa st,
@@ -158,3 +158,61 @@ Check (C02live_retransmission_eventually_delivered_partial : forall x Dt Da evs 
   net_now st x + max_rto_us + Dt < net_now st' x ->
   exists pre post st1, evs = pre ++ post /\ net_run st pre = Ok st1 /\ net_run st1 post = Ok st' /\
                        Qf x u0 st1).
+
+Check (C02live_receiver_accepts_retransmission : forall cx s ip r s' rep tags W k,
+  s_state s = Established -> rcv_wf s ->
+  tcp_window_end s = seq_norm (tcp_window_start s + W) -> 0 <= W <= TcpRecvWindow.p30 ->
+  r_seq_number r = seq_norm (tcp_window_start s - k) -> 0 <= k <= TcpRecvWindow.p30 ->
+  0 < l_len (r_payload r) <= TcpRecvWindow.p30 ->
+  (r_control r = CNone \/ r_control r = CPsh) ->
+  r_ack_number r = Some (s_local_seq_no s) ->
+  0 <= s_local_seq_no s < 4294967296 -> 0 <= rb_len (s_tx_buffer s) < 2147483648 ->
+  tcp_process cx s ip r = Ok (s', rep, tags) ->
+  s_remote_seq_no s' = s_remote_seq_no s /\ s_state s' = Established /\
+  s_rx_fin_received s' = s_rx_fin_received s /\
+  ((exists p, rep = Some p /\ pure_ack_of s' (Some p) /\
+              rb_len (s_rx_buffer s) <= rb_len (s_rx_buffer s') /\
+              (0 < W -> k = 0 -> rb_len (s_rx_buffer s) < rb_len (s_rx_buffer s')))
+   \/ (rep = None /\ s_remote_last_ack s' = s_remote_last_ack s /\
+       exists m, 1 <= m /\ rb_len (s_rx_buffer s') = rb_len (s_rx_buffer s) + m))).
+
+Check (C02live_poll_at_while_ack_owed : forall cx s,
+  s_tuple s <> None -> tcp_ack_to_transmit s = true ->
+  match tcp_poll_at cx s with
+  | Ok Tcp.PNow => True
+  | Ok (Tcp.PTime t) => exists t0, s_ack_delay_timer s = ADWaiting t0 /\ t <= t0
+  | Ok Tcp.PIngress => False
+  | _ => True
+  end).
+
+Check (C02live_ack_of_new_data_accepted : forall cx s ip r s' reply tags d W,
+  ctx_ok cx -> seg_ok r -> tcp_live_inv s -> s_state s = Established ->
+  r_control r = CNone -> r_payload r = [] ->
+  r_seq_number r = tcp_window_start s ->
+  tcp_window_end s = seq_norm (tcp_window_start s + W) -> 0 <= W <= 2 ^ 30 ->
+  r_ack_number r = Some (sq (s_local_seq_no s + d)) ->
+  0 < d <= rb_len (s_tx_buffer s) -> rb_len (s_tx_buffer s) < 2 ^ 30 ->
+  tcp_process cx s ip r = Ok (s', reply, tags) ->
+  rb_len (s_tx_buffer s') = rb_len (s_tx_buffer s) - d).
+
+Check (C02live_ack_eventually_advances_snd_una_partial : forall x Dt Da Dack evs fa st st' u0,
+  0 <= Dt -> 0 <= Dack ->
+  NI st -> opts_ok st -> dl_sync fa st ->
+  run_all (safe3 x Dack) st evs -> fair_run Dt Da fa st evs -> net_run st evs = Ok st' ->
+  0 < txl x st -> una_off (net_get st x) = u0 ->
+  net_now st x + max_rto_us + 2 * Dt + Dack < net_now st' x ->
+  exists pre post fa1 st1,
+    evs = pre ++ post /\ net_run st pre = Ok st1 /\ net_run st1 post = Ok st' /\
+    run_all (safe3 x Dack) st1 post /\ fair_run Dt Da fa1 st1 post /\
+    NI st1 /\ opts_ok st1 /\ dl_sync fa1 st1 /\
+    Qg x u0 st1 /\ net_now st1 x <= net_now st x + max_rto_us + 2 * Dt + Dack).
+
+Check (C02live_all_written_bytes_eventually_acked_partial : forall x Dt Da Dack n evs fa st st' L0,
+  0 <= Dt -> 0 <= Dack ->
+  NI st -> opts_ok st -> dl_sync fa st ->
+  run_all (safe3 x Dack) st evs -> fair_run Dt Da fa st evs -> net_run st evs = Ok st' ->
+  L0 <= l_len (ep_written (net_get st x)) ->
+  L0 - una_off (net_get st x) <= Z.of_nat n ->
+  net_now st x + Z.of_nat n * W3 Dt Dack < net_now st' x ->
+  exists pre post st1, evs = pre ++ post /\ net_run st pre = Ok st1 /\ net_run st1 post = Ok st' /\
+                       L0 <= una_off (net_get st1 x) /\ L0 <= rcv_off (net_get st1 (side_other x))).
